@@ -382,8 +382,19 @@ def gc_thresholds():
             else:
                 out["other"].append(f"{who} {op}")
     # the lock: a counter, so that nested `with _wrapper_cache:` blocks keep the callback off until the outermost ends
+    # the counter is whatever attribute of self `__enter__` changes (its name is not fixed)
+    lock_attr = "self.locks"
+    for cls in pyast.walk(tree):
+        if isinstance(cls, pyast.ClassDef) and cls.name == "_WrapperCache":
+            for f in cls.body:
+                if isinstance(f, pyast.FunctionDef) and f.name == "__enter__":
+                    for st in pyast.walk(f):
+                        tgt = st.target if isinstance(st, pyast.AugAssign) else (st.targets[0] if isinstance(st, pyast.Assign) and len(st.targets) == 1 else None)
+                        if isinstance(tgt, pyast.Attribute) and isinstance(tgt.value, pyast.Name) and tgt.value.id == "self":
+                            lock_attr = pyast.unparse(tgt)
+
     def lock_effect(f, init=False):
-        """the net effect of a method on `self.locks`: an initial value (init) or a delta; None if not recognised"""
+        """the net effect of a method on the lock counter: an initial value (init) or a delta; None if not recognised"""
         effect = None
         for st in pyast.walk(f):
             tgt = None
@@ -391,7 +402,7 @@ def gc_thresholds():
                 tgt, val = st.targets[0], st.value
             elif isinstance(st, pyast.AugAssign):
                 tgt, val = st.target, st
-            if tgt is None or pyast.unparse(tgt) != "self.locks":
+            if tgt is None or pyast.unparse(tgt) != lock_attr:
                 continue
             if effect is not None:
                 return None
@@ -402,7 +413,7 @@ def gc_thresholds():
                     return None
             elif init and isinstance(val, pyast.Constant) and isinstance(val.value, int) and not isinstance(val.value, bool):
                 effect = val.value
-            elif not init and isinstance(val, pyast.BinOp) and pyast.unparse(val.left) == "self.locks" \
+            elif not init and isinstance(val, pyast.BinOp) and pyast.unparse(val.left) == lock_attr \
                     and isinstance(val.right, pyast.Constant) and isinstance(val.right.value, int) and isinstance(val.op, (pyast.Add, pyast.Sub)):
                 effect = val.right.value if isinstance(val.op, pyast.Add) else -val.right.value
             else:
@@ -442,6 +453,8 @@ def gc_thresholds():
         out["guard"] = " or ".join(sorted(pyast.unparse(v) for v in first.test.values))
     else:
         out["guard"] = pyast.unparse(first.test) if isinstance(first, pyast.If) else ""
+    # the guard is reported with the lock counter under its canonical name (the attribute may be called differently)
+    out["guard"] = out["guard"].replace(lock_attr, "self.locks")
     return out
 
 
